@@ -129,6 +129,13 @@ def main_c25(run):
              Expression([Symbol("unpack-iterable"), Symbol("xs")]), Expression([Symbol("unpack-mapping"), Dict([])]),
              Expression([Symbol("annotate"), Symbol("a"), Symbol("int")]),
              Float("NaN"), Float("-Inf"), Complex("1+NaNj"), Float("1e300"), Integer(-5)]
+    # every short expression over the symbols the printer treats specially (dots, None) and ordinary ones: the
+    # dotted-identifier and method-call sugar must only be printed for the shapes that read back as them
+    import itertools
+    pool = [Symbol("f"), Symbol("."), Symbol(".."), Symbol("None"), Symbol("a"), Symbol("..."), Integer(1)]
+    for n in (1, 2, 3, 4):
+        for combo in itertools.product(pool, repeat=n):
+            built.append(Expression(list(combo)))
     for m in built:
         prob, r = roundtrip(m)
         run.case(("built", repr(m)))
@@ -157,7 +164,8 @@ def main_c25(run):
                       "HyPrint (the model printer composed with the reader spec): Read(Print(m)) = m and print idempotence "
                       "are TLC-checked for every model readable from short texts over 5 alphabets (general, f-string fields, "
                       "bracket strings, string escapes, sugar/dotted forms); the same texts, longer generated programs and "
-                      "hand-assembled models go through the real hy.repr -> hy.read -> hy.eval, compared node by node "
+                      "hand-assembled models (among them every expression of <= 4 elements over dots, None, ordinary symbols and a "
+                      "number) go through the real hy.repr -> hy.read -> hy.eval, compared node by node "
                       "(type, value, brackets, conversion, is_tstring) and re-printed",
                       extra={"exhaustive": True})
 
@@ -1131,6 +1139,31 @@ def main_c27(run):
             else:
                 run.cov["traces_validated_against_impl"] += 1
     run.cov["structure_matches"] = nstruct
+    # text atoms systematically: every str / bytes / bytearray of <= 3 (4) characters over the characters the
+    # printer has to escape or choose quotes around, alone and as list element and dict key
+    import itertools
+    ntext = 0
+    chars = ["'", '"', "\\", "a", "\n", "{", "é"]
+    for n in range(0, 4 if q else 5):
+        for combo in itertools.product(chars, repeat=n):
+            s0 = "".join(combo)
+            vals = [s0, [s0, s0], {s0: 1}]
+            if "é" not in s0:
+                vals += [s0.encode(), bytearray(s0.encode()), [s0.encode()]]
+            for x in vals:
+                ntext += 1
+                run.case(("text", repr(x)))
+                try:
+                    t = hy.repr(x)
+                    y = hy.eval(hy.read(t), dict(env))
+                except Exception as e:
+                    run.violation("text:" + repr(x), f"hy.repr({x!r}) does not read or evaluate: {type(e).__name__}: {e}", {"value": repr(x)})
+                    continue
+                if not val_equal(x, y):
+                    run.violation("text:" + repr(x), f"hy.repr({x!r}) = {t!r} evaluates to {y!r}", {"value": repr(x), "text": t})
+                else:
+                    run.cov["traces_validated_against_impl"] += 1
+    run.cov["text_atoms"] = ntext
     run.sample({"shape": shapes[3], "form": forms[4]})
     run.sample({"value": repr(fill(shapes[3], rng)), "printed": hy.repr(fill(shapes[3], rng))})
     return run.finish("model_checking",
@@ -1139,7 +1172,8 @@ def main_c27(run):
                       "TLC computes the documented form skeleton of each (Unform(Form(v)) = v checked) and the harness fills "
                       "the atoms (inf, nan, -0.0, big ints, quotes/escapes/non-ASCII): printed text must read to that "
                       "skeleton, evaluate to an equal value of the same type, print a placeholder for self reference, and "
-                      "terminate",
+                      "terminate; plus every str / bytes / bytearray of <= 3 (4) characters over quotes, backslash, newline, "
+                      "brace, letters, alone and inside a list and a dict",
                       assumptions=["atom formatting (floats, string escapes) is exercised, not modelled"])
 
 
